@@ -54,6 +54,14 @@ impl Parse for Input {
         if input.peek(syn::token::Trait) {
             let item_trait: syn::ItemTrait = input.parse()?;
 
+            // syn puts the inner attributes (`//! doc`, `#![allow(..)]` inside the braces) into `item_trait.attrs`:
+            // keep them, as outer attributes (the trait is re-emitted from its parts)
+            let mut attrs = attrs;
+            attrs.extend(item_trait.attrs.iter().cloned().map(|mut attr| {
+                attr.style = syn::AttrStyle::Outer;
+                attr
+            }));
+
             Ok(Input::Trait(syn::ItemTrait {
                 attrs,
                 vis,
